@@ -10,7 +10,7 @@ from mc import explorer
 from mc.refs import relmodel, schemas
 
 NEEDS_BRIDGEPOINT = False
-BUDGET_S = {'quick': 150, 'thorough': 2400}
+BUDGET_S = {'quick': 3600, 'thorough': 14400}
 ASSUMPTIONS = [
     'instance pools capped at 2 (quick) / 3 (thorough) instances ever created per class; search to closure under the cap',
     'operations on deleted instances other than a repeated delete are outside the statement and not generated',
